@@ -1,5 +1,6 @@
 import Driver.Replay
 import Driver.Oracles
+import Driver.C11
 /-
   tvcoredriver <PROP> <trace-file>
   One `CASE` line per case (CONVENTIONS §3) and a SUMMARY line.
@@ -55,7 +56,8 @@ def main (args : List String) : IO UInt32 := do
     let mut kbad := 0
     let mut obad := 0
     for c in cases do
-      let (out, k, o) := runCase prop c
+      let isC11 : Bool := match c.head? with | some l => decide ((l.splitOn "family=c11").length > 1) | none => false
+      let (out, k, o) := if isC11 then TV.Driver.C11.evalCase c else runCase prop c
       IO.println out
       if !k then kbad := kbad + 1
       if !o then obad := obad + 1
